@@ -43,6 +43,23 @@ struct Mon {
          if (&*e != &*s.position(n - 1)) bad(std::string("sequence:decrement:") + owner, "--end() is not the last element");
          auto p = s.begin(); auto q = p++; if (!(q == s.begin()) || !(p == s.position(1))) bad(std::string("sequence:postincrement:") + owner, "post-increment misbehaves");
       }
+      // a random walk of one and the same iterator object over the sequence with all four moves (++it, it++, --it, it--),
+      // dereferenced (both * and ->) before and after every move: it always designates the element at its index
+      if (n >= 2) {
+         std::size_t idx = n / 2; auto w = s.position(idx);
+         std::uint64_t x = 0x9e3779b97f4a7c15ull * (n + 1);
+         for (int k = 0; k < 40; ++k) {
+            if (&*w != &*s.position(idx) || w.operator->() != &*s.position(idx)) { bad(std::string("sequence:walk:before-move:") + owner, "an iterator does not designate the element at its index"); break; }
+            x ^= x << 13; x ^= x >> 7; x ^= x << 17;
+            int mv = int(x % 4);
+            if ((mv < 2 && idx + 1 >= n) || (mv >= 2 && idx == 0)) mv = (mv + 2) % 4;
+            const char* name = mv == 0 ? "pre-increment" : mv == 1 ? "post-increment" : mv == 2 ? "pre-decrement" : "post-decrement";
+            if (mv == 0) { ++w; ++idx; } else if (mv == 1) { auto old = w++; if (&*old != &*s.position(idx)) { bad(std::string("sequence:walk:returned-copy:") + owner, "the copy returned by a post-increment does not designate the old element"); break; } ++idx; }
+            else if (mv == 2) { --w; --idx; } else { auto old = w--; if (&*old != &*s.position(idx)) { bad(std::string("sequence:walk:returned-copy:") + owner, "the copy returned by a post-decrement does not designate the old element"); break; } --idx; }
+            C.count("iterator_walk_moves");
+            if (&*w != &*s.position(idx) || w.operator->() != &*s.position(idx)) { bad(std::string("sequence:walk:after-") + name + ":" + owner, std::string("after a ") + name + " of an iterator that had been dereferenced, it does not designate the element at its new index"); break; }
+         }
+      }
    }
    template<class A, class B>
    void same_seq(const char* what, const Sequence<A>& a, const Sequence<B>& b)
@@ -350,7 +367,7 @@ static void body(Ctx& C)
    std::string list = "["; for (auto& k : M.kinds_seen) { if (list.size() > 1) list += ","; list += jstr(k); } C.extra("kinds_and_states", list + "]");
    C.sample(J().s("case", "Block with 3 handlers: try_block() vs handlers().size() > 0; body() vs region().body()").str());
    C.sample(J().s("case", "Linkage(\"C\") == Linkage(get_string(\"C\")) and != Linkage(\"c\")").str());
-   C.need("sequence_checks"); C.need("derived_checks"); C.need("equality_pairs"); C.need("nodes_checked"); C.need("library_made_basic_specifiers", 17); C.need("library_made_basic_qualifiers", 3);
+   C.need("sequence_checks"); C.need("derived_checks"); C.need("equality_pairs"); C.need("iterator_walk_moves"); C.need("nodes_checked"); C.need("library_made_basic_specifiers", 17); C.need("library_made_basic_qualifiers", 3);
 }
 
 int main(int argc, char** argv) { return guarded_main(argc, argv, body); }
